@@ -426,8 +426,9 @@ PROPS = {
      'design_ref': 'DESIGN.md 5/C20, 6/D11, 7',
      'translators': [],
      'technique': 'Lean 4 proof (pigeonhole divergence / fair-stream termination of rejection sampling, reachability in the returned graph, termination '
-                  'of the alternating loop for exact tie-free search) + exact differential correspondence of the generator and of rejection_sample + the '
-                  'property predicate on the real connect_graph in watched child processes',
+                  'of the alternating loop with its cycle guard for EVERY deterministic search, transparency and break-soundness of the guard) + exact '
+                  'differential correspondence of the generator, of rejection_sample and of the alternating loop round by round + the property predicate '
+                  'on the real connect_graph in watched child processes',
      'text': 'Lean theorems about a literal model of utils.rejection_sample over any generator (and over the exact Tausworthe generator of utils.py on '
              'Int64): rejection_sample_spec (whatever it returns is duplicate-free, in range, of the requested length), rejection_sample_diverges / '
              'unclamped_call_diverges (more samples than the pool holds: never returns, for every generator and every number of draws - the hang of the '
@@ -435,20 +436,30 @@ PROPS = {
              'finishes; fairness is shown necessary by rejection_sample_constant_stream_diverges); connect_spec / connect_spec_spanning / '
              'connect_graph_model (input symmetric, label classes connected, one non-zero edge per pair of labels inserted in both directions => result '
              'symmetric, contains the input unchanged, connected, added edges join different components and carry the returned weight); '
-             'alternating_loop_terminates_partial (exact nearest-neighbour search without ties: the `closest pair stabilises` loop exits) and '
-             'alternating_loop_tie_cycle (with ties it need not). The model is tied to the code by bit-exact comparison of tau_rand_int / tau_rand '
+             'alternating_loop_terminates (the loop of find_component_connection_edge as repaired - `if state in seen_states: break` - exits for every '
+             'deterministic restricted search returning point numbers: finite key space, pigeonhole on the duplicate-free seen list), '
+             'cycle_guard_transparent (whenever the unguarded loop exits the guarded one exits in the same state after the same number of searches, not '
+             'through the guard), cycle_guard_fires_only_on_divergence (a repeated key means the unguarded loop never exits), alternating_loop_exit_state, '
+             'alternating_loop_stays_in_components, best_edge_round / best_edge_joins (best_dist / best_edge bookkeeping), exact_search_guard_silent; '
+             'alternating_loop_terminates_partial (exact nearest-neighbour search without ties: the unguarded loop exits) and '
+             'alternating_loop_tie_cycle (with ties it need not - D30). Every call of the real find_component_connection_edge made in the watched children '
+             'is recorded round by round (loop key at the top of the iteration, sorted search result) and replayed through the Lean altLoopSeen with the '
+             'recorded results as search table: same keys, same number of searches, same best edge. The model is tied to the code by bit-exact comparison of tau_rand_int / tau_rand '
              'streams and of rejection_sample (samples and generator state) at kernel level and for every rejection_sample call the real '
              'find_component_connection_edge makes; connect_graph itself is run on generated multi-component data sets (3 metrics, 2..8 clusters of '
              '1..40 points, Gaussian / integer-lattice / duplicate-heavy) in child processes under soft and hard deadlines with a loop-state recorder (a '
              'repeated state proves non-termination), and the property predicate (symmetric, contains input, one component, added edges cross components '
              'at the true metric distance) is evaluated on its real output',
      'note': 'trusted: Lean kernel + {propext, Classical.choice, Quot.sound}; the sampled exact correspondence between the Lean model and utils.py '
-             '(generator, rejection_sample); termination of the real (approximate, tie-breaking) alternating search loop is NOT proved - it is observed '
-             'under a cycle detector and deadlines, and fails on tied distances; that the restricted search only returns points of the other component '
+             '(generator, rejection_sample, alternating loop control + best-edge bookkeeping given the recorded search results); the restricted search itself '
+             '(custom_search_closure) is an INPUT of the loop model - termination is proved for every deterministic search, determinism of the real search '
+             '(no hidden state besides the arguments) is observed by the replay, and each single search is a finite graph walk (visited table, C02); that the '
+             'restricted search only returns points of the other component '
              'rests on C16 (search graph is a subgraph of the symmetrised neighbour graph); weights are compared with a float64 reference at relative '
              "1e-5 (cosine: + 4 ulp of 1.0 absolute; a zero-length edge may carry FLOAT32_EPS, the module's convention)",
      'explanation': 'theorems over every generator / stream / pool size / graph; kernel-level exact correspondence; API-level predicate on real '
-                    'connect_graph output in killed-at-deadline children with recorded rejection_sample calls and loop states',
+                    'connect_graph output in killed-at-deadline children with recorded rejection_sample calls and loop rounds (replayed through the model); every '
+                    'fifth case is a history connect -> update(moved rows) -> connect on the same index, every fourth cosine case has norms ~1e-8',
      'assumptions': ['each numba kernel computes what its hand-written Lean model computes: sampled bit-exactly on generated inputs on every run, not '
                      'proved',
                      'Lean 4.33.0 kernel; theorems may use only propext, Classical.choice, Quot.sound (audited with #print axioms on every run)',
